@@ -101,6 +101,7 @@ class Scope:
         self.known = []           # (class, name)
         self.decl = Counter()
         self.refs = Counter()
+        self.assigned = Counter()   # generated identifiers on the left of `=`
         self.kind = {}
 
     def declare(self, ident, kind):
@@ -227,6 +228,14 @@ class Scope:
             self.walk_list(body.get("stmts", []), set(now) | inner, later | inner)
         elif t == "ImportSpecifier" or t == "ExportSpecifier":
             return
+        elif t == "AssignmentExpression":
+            tgt = n.get("left")
+            while isinstance(tgt, dict) and tgt.get("type") == "ParenthesisExpression":
+                tgt = tgt.get("expression")
+            if is_ident(tgt) and tgt["ctxt"] >= GEN:
+                self.assigned[key_of(tgt)] += 1
+            for k, v in n.items():
+                self.walk(v, now, later, capture)
         else:
             for k, v in n.items():
                 if k in ("typeAnnotation", "typeParameters", "returnType", "typeArguments"):
@@ -305,6 +314,11 @@ def analyse(output, input_tree, unres, pragma_names):
             # (the empty context 0 is no source identifier's: the resolver marks every one of them)
             if 0 < k[1] < GEN and c > si.decl.get(k, 0):
                 errors.append(("added-declaration-without-fresh-context", k[0]))
+    for k, c in sc.assigned.items():
+        # a generated temporary carries ONE value: the slot function that reads it later must find
+        # the value its own element put there
+        if c > 1:
+            errors.append(("temporary-assigned-more-than-once", k[0]))
     for k, c in sc.decl.items():
         if k[1] >= GEN:
             if c > 1:
